@@ -48,7 +48,7 @@ def val_pool(rng):
         return rng.choice("abcXYZ!~0*+-:"), k
     if k == "json":
         return rng.choice([{"a": 1}, {"k": [1, {"z": None}], "b": "x y"}, {}, {"t": "a\tb"}, {"n": {"m": [1.5, True]}},
-                           ["a", 1], [1, "a", None], [[1, 2], [3]], {"u": "é"}]), k
+                           ["a", 1], [1, "a", None], [[1, 2], [3]], {"u": "é"}, [], []]), k
     if k == "intarr":
         pool = rng.choice([[0, 255], [0, 256], [65535], [65536], [2 ** 32 - 1], [2 ** 32], [-128, 127], [-129],
                            [-32768, 32767], [-32769], [-2 ** 31, 2 ** 31 - 1], [-2 ** 31 - 1], [-1, 2 ** 31],
@@ -59,7 +59,7 @@ def val_pool(rng):
     if k == "mixarr":
         return {"__t": "mixlist", "v": [1, 2.5, rng.randint(0, 9)]}, k
     if k == "numarray":
-        return {"__t": "numarray", "v": [rng.choice([0, 1, 255, 256, -1, 70000]) for _ in range(rng.randint(1, 4))]}, k
+        return {"__t": "numarray", "v": [rng.choice([0, 1, 255, 256, -1, 70000]) for _ in range(rng.randint(0, 4))]}, k
     if k == "bytearray":
         return {"__t": "bytearray", "v": [rng.randint(0, 255) for _ in range(rng.randint(1, 5))]}, k
     if k == "nonfinite":
@@ -105,7 +105,7 @@ def default_dtype(x):
         return "J"
     if isinstance(x, list):
         if not x:
-            return None      # unspecified
+            return "J"       # the empty list: of the documented defaults only J can write it (a B array has >= 1 element)
         if all(isinstance(e, int) and not isinstance(e, bool) for e in x) or all(isinstance(e, float) for e in x):
             return "B"
         return "J"
